@@ -108,8 +108,8 @@ func check(c Case) error {
 	if got != want {
 		return vk.Errf("location %q parsed from text on parent %q: feature sequence %q, INSDC reading %q", text, parent, got, want)
 	}
-	if !sameMarkers(insdc.StructureMarkers(parsed), n.Markers(), false) {
-		return vk.Errf("location %q parsed from text: partial ends %+v, written %+v", text, insdc.StructureMarkers(parsed), n.Markers())
+	if !insdc.SameSegments(insdc.StructureSegments(parsed), n.Segments()) {
+		return vk.Errf("location %q parsed from text: stranded spans and partial ends in reading order %+v, written %+v", text, insdc.StructureSegments(parsed), n.Segments())
 	}
 	// (a') the same text inside a record, through the public parser
 	if c.InRecord {
@@ -196,8 +196,8 @@ func check(c Case) error {
 	if ev := back.Eval(parent); ev != want {
 		return vk.Errf("BuildLocationString of %s gives %q, which denotes %q instead of %q", text, written, ev, want)
 	}
-	if !sameMarkers(back.Markers(), n.Markers(), false) {
-		return vk.Errf("BuildLocationString of %s gives %q: partial ends %+v, want %+v", text, written, back.Markers(), n.Markers())
+	if !insdc.SameSegments(back.Segments(), n.Segments()) {
+		return vk.Errf("BuildLocationString of %s gives %q: stranded spans and partial ends in reading order %+v, want %+v", text, written, back.Segments(), n.Segments())
 	}
 	return nil
 }
